@@ -50,7 +50,8 @@ def main():
     chk.assumptions += ["earlier operations use concrete leaves (they matter through side effects that depend on shapes and paths); the compared operation's leaves are symbolic",
                         "every 5th path is shadow-run concretely (re-import makes paths expensive)"]
     chk.require_goals(["history-with-earlier-diff-or-merge", "history-with-config", "history-with-reset",
-                       "shape-change-at-shared-path", "same-objects-diffed-twice"])
+                       "shape-change-at-shared-path", "same-objects-diffed-twice",
+                       "ids-kept-sources-rewritten-after-ids-were-ignored", "same-long-texts-in-different-roles"])
     return chk.finish()
 
 
